@@ -86,4 +86,52 @@ Section Valid.
       eapply Forall2_imp; [|exact HS]. intros key sg (d & r & s & der & Hd & _ & Hder & Hsg & _ & Hv).
       exists d, r, s, der. repeat split; auto.
   Qed.
+  (* ---- segwit kinds: the same for sign_msgs (preimage mode) ---- *)
+  Lemma sign_msgs_sound : forall msgs keys draws f sigss,
+    0 <= f < 256 ->
+    sign_msgs p a n G sha256 draws keys msgs (Some f) = Ok sigss ->
+    Forall2 (fun m sgs => Forall2 (good_sig m f true) keys sgs) msgs sigss.
+  Proof.
+    induction msgs as [|m msgs IH]; intros keys draws f sigss Hf H.
+    - cbn [sign_msgs] in H. injection H as <-. constructor.
+    - cbn [sign_msgs] in H. apply bind_ok in H as ([sgs d1] & Hk & H). cbn beta iota in H.
+      apply bind_ok in H as (rest & Hrest & H). injection H as <-.
+      constructor; [eapply sign_keys_sound; eauto | eapply IH; eauto].
+  Qed.
+
+  (* send_valid, segwit kinds, partial (signature level): on the sub-domain of segwit_messages_partial every signature
+     made for input j is DER || flag and ECDSA-valid for the BIP143 sighash of input j under its key *)
+  Theorem segwit_signatures_valid_partial (sats : utxo -> Z) (t : tx) script f (unspents : list utxo) keys draws msgs sigss :
+    wf_tx t -> tx_version t = 1 -> tx_locktime t = 0 -> standard_flag f ->
+    Z.of_nat (length script) < 2 ^ 64 ->
+    length unspents = length (tx_ins t) ->
+    (forall j x, nth_error unspents j = Some x ->
+                 u_vout x = Z.of_nat j /\ sat_of_btc (u_amount x) = Ok (sats x) /\ 0 <= sats x < 2 ^ 64) ->
+    segwit_msgs sha256 (map ser_txin (tx_ins t)) (map ser_txout (tx_outs t)) (ser_script script) (Some f) unspents = Ok msgs ->
+    sign_msgs p a n G sha256 draws keys msgs (Some f) = Ok sigss ->
+    forall j x, nth_error unspents j = Some x ->
+      exists digest sgs,
+        sighash sha256 t j (sats x) script f = Some digest /\ nth_error sigss j = Some sgs /\
+        Forall2 (fun key sg => exists d r s der,
+                   privkey_int n key = Ok d /\ der_encode_sig r s = Ok der /\ sg = der ++ [z2b f] /\
+                   verify p a b n G r s (smul p a d G) (of_be digest) = Ok true)
+                keys sgs.
+  Proof.
+    intros Hwf Hv Hl Hf Hs Hlen Hall Hm Hsign j x Hj.
+    destruct (segwit_messages_partial sha256 sats t script f unspents msgs Hwf Hv Hl Hf Hs Hlen Hall Hm j x Hj) as (m & Em & Pm).
+    assert (Rf : 0 <= f < 256).
+    { unfold standard_flag, standard_flags in Hf. cbn [In] in Hf. lia. }
+    pose proof (sign_msgs_sound _ _ _ _ _ Rf Hsign) as HS.
+    assert (Hnth : forall (ms : list bytes) (ss : list (list bytes)) k mm,
+               Forall2 (fun m sgs => Forall2 (good_sig m f true) keys sgs) ms ss -> nth_error ms k = Some mm ->
+               exists sgs, nth_error ss k = Some sgs /\ Forall2 (good_sig mm f true) keys sgs).
+    { intros ms ss k mm HF. revert k. induction HF as [|m0 s0 ms' ss' H0 _ IH]; intros k Hk; destruct k; try discriminate.
+      - injection Hk as <-. exists s0. split; [reflexivity|exact H0].
+      - cbn [nth_error] in *. apply IH. exact Hk. }
+    destruct (Hnth msgs sigss j m HS Em) as (sgs & Es & Hg).
+    exists (Bits.Spec.Bip143.hash256 sha256 m), sgs. split; [|split; [exact Es|]].
+    - unfold sighash. rewrite Pm. reflexivity.
+    - eapply Forall2_imp; [|exact Hg]. intros key sg (d & r & s & der & Hd & _ & Hder & Hsg & _ & Hver).
+      exists d, r, s, der. repeat split; auto.
+  Qed.
 End Valid.
